@@ -433,6 +433,10 @@ class Array(AbstractValueWithQuantityObject, Generic[ValuesType]):
                 q, v = operation_func(q1, q2, v0, v1)
                 result.append(v)
 
+            if not result:
+                # no values: the quantity of the (empty) result still has to be computed.
+                q, _ = operation_func(q1, q2, 1.0, 1.0)
+
             if values_iteration.IsTuple():
                 result = tuple(result)  # type:ignore[assignment]
             return self.__class__.CreateWithQuantity(q, result)  # type:ignore[return-value]
